@@ -358,11 +358,14 @@ def compare_carried(fmt, s0, s1, prec=None):
                 out.append(("adp", "atom %d Bisoequiv %r -> %r" % (k, a0.Bisoequiv, a1.Bisoequiv)))
         elif fmt in ("pdffit", "xcfg", "cif", "pdb"):
             U0, U1 = numpy.array(a0.U), numpy.array(a1.U)
-            iso0 = bool(numpy.all(U0 == U0[0, 0] * numpy.identity(3)))
-            if fmt in ("pdb", "cif") and iso0:
-                key = "B" if fmt == "pdb" else "Uiso"
+            # a tensor is isotropic when it is a multiple of the lattice's unit isotropic tensor (NOT of the identity: in an
+            # oblique cell u*identity is anisotropic); for such atoms pdb/cif/xcfg carry one number, the off-diagonal terms
+            # are derived from the (separately rounded) lattice
+            iso0 = not s0.lattice.isanisotropic(U0)
+            if fmt in ("pdb", "cif", "xcfg") and iso0:
+                key = "B" if fmt == "pdb" else ("Uiso" if "Uiso" in P else "U")
                 v0, v1 = (a0.Bisoequiv, a1.Bisoequiv) if fmt == "pdb" else (a0.Uisoequiv, a1.Uisoequiv)
-                if not _close(v0, v1, tol(P[key], v0)):
+                if not _close(v0, v1, tol(P[key], v0, slack=1.6) + 2e-8):     # 2e-8: Lattice._epsilon, the library's own isotropy threshold
                     out.append(("adp", "atom %d %s %r -> %r" % (k, key, v0, v1)))
             else:
                 for i in range(3):
